@@ -64,6 +64,7 @@ CHECKS = {
         text=("All 9 server ref states x all lists of <=2 (thorough <=3) commands over 3 refs x old {0,c1,c2} x new {0,c1,c2,missing,in-pack} x atomic on/off through ReceivePackHandler.handle() fed real "
               "pkt-lines (disk, memory, packed refs, side-band, no delete-refs) and through LocalGitClient.send_pack; reported ok <=> applied, stale old values untouched and rejected, every ref target in the store, "
               "atomic all-or-none. Two racing handlers explored with <=2-3 preemptions: reports and final refs must be explained by an order of the pushes (atomic) / of the commands (plain)."),
+        round2='Round 2: in-process local pushers racing to create one ref; two receive-pack requests served by threads on ONE MemoryRepo explored at source-line granularity inside the ref container; ref names the server must refuse (check-ref-format) or cannot store (file/directory conflict), alone and next to good commands.',
         note="Trusted: the reference semantics in props/C06.py; under contention a rejection may be spurious (ng with no effect) but ok must be truthful.",
     ),
     "C07": dict(
@@ -84,6 +85,7 @@ CHECKS = {
               "interleavings with <=2 (quick) / <=3 (thorough) preemptions; each complete history must have a linearization under the map model (errors = no effect), "
               "readers must only see values the ref held while they ran, final disk state must equal the model. WorkTree.commit racers: every commit reported "
               "successful must be an ancestor of the final tip."),
+        round2='Round 2-3: 7 initial states incl. a packed-only bystander; creation races (add_if_new directly and through HEAD vs create-and-pack).',
         note="Trusted: as C07; commit scenarios use a conflict-filtered reduction (preempt only before calls whose path another actor touches), footprints iterated to a fixpoint. One residual defect is a known finding.",
     ),
     "C09": dict(
@@ -145,6 +147,7 @@ CHECKS = {
               "maintenance operation and pairs (pack_loose_objects, repack, repack excluding unreachable, gc with grace 0/None/2 weeks, prune, pack_refs, write_midx, write_commit_graph; thorough also git repack -ad / git gc) under two "
               "clock settings: every object in the closure of all refs and HEAD stays readable with identical bytes on the live and on a reopened store; unreachable objects only disappear when older than the grace period. "
               "Reader (getitem / get_raw / membership / iteration, warm or cold) x repacker x layout explored at system-call granularity: no spurious miss."),
+        round2='Round 2: a multi-pack-index over two packs with a reader that knows the packs and the index without having opened a pack; the fix for the multi-pack-index removal race came out of it.',
         note="Trusted: as C07/C08 for E1 (conflict-filtered reduction); the clock is shifted for the maintenance code; the builder's 'age' operation makes existing object files 20 days old; an object's age is that of its newest copy.",
     ),
     "C11": dict(
@@ -184,6 +187,7 @@ CHECKS = {
               "stream into reads by each decoder; every 4-hex-digit prefix and every 4-byte prefix over a hostile alphabet "
               "is fed to every decoder; encoders are driven across the 65516/65520 size limits. The space is finite and "
               "visited completely, so absence of a violation is a fact about the code within the bound."),
+        round2="Round 2: the client's decoding of a report-status answer carried by 1-3 side-band data packets cut at every inner offset, with progress packets in between.",
         note="Trusted: the 60-line reference codec (refmodels/pktline.py), CPython BytesIO. Bounds: <=3(4) frames, stream partitions exhaustive to 13(16) bytes and <=3(4) cuts above.",
     ),
 }
